@@ -29,6 +29,8 @@ class AbsInt:
         self.edge_filter = edge_filter
         self.on_call = on_call
         self.agg_value = agg_value
+        self.assign_fork = None
+        self.call_fork = None
         self.track_values = True
         self.reset_at = set(reset_at)
         self.reset_prefixes = tuple(reset_prefixes)
@@ -174,13 +176,31 @@ class AbsInt:
 
     def step(self, state):
         bb, store_f, flags, counters, extra = state
-        blk = self.body.blocks[bb]
         store = dict(store_f)
         if bb in self.reset_at:
             flags = frozenset(x for x in flags if not x.startswith(self.reset_prefixes))
             counters = frozenset((k, v) for k, v in counters if k not in self.reset_counters)
+        return self._step_from(bb, 0, store, flags, counters, extra)
+
+    def _step_from(self, bb, start, store, flags, counters, extra):
+        blk = self.body.blocks[bb]
         for i, st in enumerate(blk.stmts):
+            if i < start:
+                continue
             k = st["k"]
+            if k == "assign" and self.assign_fork is not None and not st["place"]["p"]:
+                alts = self.assign_fork(bb, i, st, store)
+                if alts:
+                    # a value the client splits by cases (e.g. the bool returned by a hook): one successor family per case
+                    out = []
+                    for val, add in alts:
+                        s2 = dict(store)
+                        if val is None:
+                            s2.pop(st["place"]["l"], None)
+                        else:
+                            s2[st["place"]["l"]] = val
+                        out += self._step_from(bb, i + 1, s2, flags | frozenset(add), counters, extra)
+                    return out
             if k == "assign":
                 pl = st["place"]
                 l = pl["l"]
@@ -214,6 +234,20 @@ class AbsInt:
             d = t["dest"]
             if not d["p"]:
                 cv = self._call_value(t, store) if self.track_values else None
+                alts = self.call_fork(bb, t, store) if (cv is None and self.call_fork is not None) else None
+                if alts and t.get("target") is not None and t["target"] in succs:
+                    # a predicate on a runtime value the client splits by cases (`received.is_some()`)
+                    out = []
+                    for val, add in alts:
+                        s2 = dict(store)
+                        s2[d["l"]] = val
+                        out.append((t["target"], frozenset(s2.items()), flags | frozenset(add), counters, extra))
+                    for s_ in succs:
+                        if s_ != t["target"]:
+                            s2 = dict(store)
+                            s2.pop(d["l"], None)
+                            out.append((s_, frozenset(s2.items()), flags, counters, extra))
+                    return out
                 if cv is None:
                     store.pop(d["l"], None)
                 else:
